@@ -320,11 +320,16 @@ def two_sessions(driver, res, r, tier):
             p = Pair(conf, driver, res)
             p.step({'k': 'boot'})
             cid = 0
-            for which in (a, b):
+            for n, which in enumerate((a, b)):
                 if not p.sim.enabled({'k': 'connok', 'c': cid}):
                     break
                 p.step({'k': 'connok', 'c': cid})
-                p.step({'k': 'chunk', 'c': cid, 'hex': pool[which].hex()})
+                ob = pool[which]
+                if n == 1 and r.random() < 0.6:
+                    # the peer comes back with another BGP identifier (it was renumbered / it is another router behind the
+                    # same address): acceptance does not depend on what an earlier session saw
+                    ob = ob[:19 + 5] + bytes([10, 0, 9, 9]) + ob[19 + 9:]
+                p.step({'k': 'chunk', 'c': cid, 'hex': ob.hex()})
                 if not p.sim.enabled({'k': 'chunk', 'c': cid}):
                     break
                 p.step({'k': 'chunk', 'c': cid, 'hex': SG.KEEPALIVE.hex()})
